@@ -1,11 +1,13 @@
 import Oracle.Proto
 import Oracle.ActorSys
+import Oracle.ProcessFacts
 /-! Oracle suites of property C06 (the Layer-2 actor-system model is shared by C03–C06). -/
 namespace Oracle.C06
 
 def suites : List (String × Suite) := [
   ("actorsys", Oracle.ActorSys.model),
-  ("actorsys-judge", Oracle.ActorSys.judgeC06)
+  ("actorsys-judge", Oracle.ActorSys.judgeC06),
+  ("process-facts", Oracle.ProcessFacts.suite)
 ]
 
 end Oracle.C06
